@@ -17,6 +17,7 @@ Why(c) ==
   ELSE IF Len(c.before.dirs) # Len(c.after.dirs) THEN "number-of-directives-changed"
   ELSE IF \E n \in 1..Len(c.before.dirs) : c.before.dirs[n] # c.after.dirs[n] THEN "directive-fields-changed"
   ELSE IF c.before.gaps # c.after.gaps THEN "text-between-directives-changed"
+  ELSE IF c.inkBefore # c.inkAfter THEN "non-blank-text-added-or-dropped"        \* (census of the non-blank characters)
   ELSE IF ~c.idempotent THEN "formatting-twice-changes-the-text"
   ELSE IF c.cliExit # 0 THEN "cli-failed-on-parseable-file"
   ELSE IF ~c.cliEqualsLib THEN "cli-and-library-disagree"
